@@ -8,7 +8,7 @@ SPEC = {
         "AM.Silence.expired_stays_step", "AM.Silence.expired_never_active_again",
         "AM.Silence.queryable_until_retention", "AM.Silence.gc_removes_after_retention",
         "AM.Silence.gc_never_removes_pending_or_active",
-        "AM.Silence.index_inv_preserved", "AM.Silence.query_eq_filter",
+        "AM.Silence.index_inv_preserved", "AM.Silence.query_eq_filter", "AM.Silence.reload_lossless",
     ],
     "engines": [
         {"name": "sillife", "pkg": "./sillife", "search_cases": 20000},
